@@ -207,6 +207,11 @@ impl Engine {
         }
     }
 
+    /// number of OS threads of the engine process (1 = only the input thread is left)
+    pub fn thread_count(&self) -> usize {
+        std::fs::read_dir(format!("/proc/{}/task", self.child.id())).map(|d| d.count()).unwrap_or(0)
+    }
+
     pub fn kill(&mut self) {
         let _ = self.child.kill();
         let _ = self.child.wait();
